@@ -68,6 +68,29 @@ CHECKS = {
              note="'reduces noise' decided on fixed seeded content; Venn equality across chunk sizes required only for multiples of the bin", ref="3/C20"),
 }
 
+# clauses added after the first version of each check (appended to the level text)
+EXTRA = {
+ "C01": " Also: configurations without a sync channel, selector results kept while later reads happen (no aliasing), geometry attributes against the model.",
+ "C02": " Also: negative steps on compressed files, compression without the post-check, decompression onto an existing .bin (refused unchanged or complete).",
+ "C03": " Also: a second split of the same session (rerun) and a long recording spanning many windows.",
+ "C04": " Also: a session whose metadata claims fewer samples than the file holds, two process() calls on the same converter object, and the NP2.4_shank key / stream type of every shank file.",
+ "C05": " Also: labels anywhere on the probe (dead/noisy patterns, NPultra), long arrays, and forwarding of every documented argument by car/kfilt/fk.",
+ "C06": " Also: append mode x worker counts, recordings no longer than one batch, compute_rms off, float32 output, non-symmetric whitening matrices, sample shifts given explicitly, and a second run over the outputs of the first (header history).",
+ "C07": " Also: re-use of the same shifts array across calls, stacked inputs.",
+ "C08": " Also: NP2.4 selections starting at rows 0 and 600 and a low-row NP2.4 layout; full-probe layouts of every kind.",
+ "C09": " Also: configurations without a sync channel, values actually consumed by the reader (used), and every entry of the shipped fixture metadata files.",
+ "C10": " Also: repeated extraction from the same reader (twice), step thresholds.",
+ "C11": " Also: three opening modes (offline / online / ignore_warnings), a .ch whose sampling rate differs by 1e-4 relative, deferred opening (Reader(open=False) then open()), int16 and other sample formats.",
+ "C12": " Also: a sweep over window sizes on one recording, a second conversion of the same session, and sub-range reads of the LF file.",
+ "C13": " Also: recordings whose length is not a multiple of the chunk, a second recording extracted at the same path after the first was removed, compressed input, wfs table padding.",
+ "C15": " Also: bad channels lying inside the outside-brain block, geometry given as a sequence, detection on files with 7 non-overlapping batches where one channel's mode differs from its median.",
+ "C16": " Also: repeated calls with the same arrays, zero-crossing slew steps, both rules at once against reference flags.",
+ "C17": " Also: large triples beyond the box (fixed family).",
+ "C18": " Also: sequences of filter calls sharing a frequency-scale result (no hidden state between calls), cosine tapers.",
+ "C19": " Also: maps kept from earlier calls stay valid after later calls; 300-event trains over > 2000 s at +-100 ppm.",
+ "C20": " Also: savgol on an irregular lattice of abscissae, stacking with repeated labels.",
+}
+
 ALL = ["C%02d" % i for i in range(1, 21)]
 PENDING_REASON = "check not built yet in this round (planned, see DESIGN.md section 3); no claim is made until it is"
 
@@ -84,7 +107,7 @@ def main():
             "evidence_file": "/verif/evidence/%s.json" % pid,
             "replay_cmd_template": "%s /verif/run.py %s --replay {path}" % (PY, pid),
             "engine": c["engine"],
-            "level_claimed": {"category": c.get("category", "model_checking"), "text": c["text"], "design_ref": "DESIGN.md " + c["ref"]},
+            "level_claimed": {"category": c.get("category", "model_checking"), "text": c["text"] + EXTRA.get(pid, ""), "design_ref": "DESIGN.md " + c["ref"]},
             "level_note": c["note"],
             "technique": c["technique"],
         })
